@@ -38,6 +38,9 @@ def as_found_models(wd):
     cfg = beh.LIST_CFG % ("args", 5, 3, 2, 3, 24, 2, "FALSE", "InvConvergence InvTermination")
     r = C.model_check("ListMC", cfg, os.path.join(wd, "af-none"), workers=4, xmx="4g", timeout=900)
     expect("ListMC[args] as repaired satisfies InvConvergence, InvTermination", r["ok"])
+    cfg = beh.CHAIN_CFG % (7, 3, 2, 30, 2, "FALSE", "InvConvergence") + "CONSTANT AsFoundChain <- AsFoundF27\n"
+    r = C.model_check("ChainMC", cfg, os.path.join(wd, "af-chain-f27"), workers=4, xmx="4g", timeout=900)
+    expect("ChainMC with F27 as found violates the whole-array InvConvergence", (not r["ok"]) and "Invariant InvConvergence is violated" in r["out"])
     cfg = beh.CHAIN_CFG % (6, 3, 2, 30, 2, "FALSE", "ProbeConvergenceVacuous")
     r = C.model_check("ChainMC", cfg, os.path.join(wd, "af-chain-probe"), workers=4, xmx="4g", timeout=900)
     expect("ChainMC: the antecedent of InvConvergence is reachable (probe violated)", (not r["ok"]) and "ProbeConvergenceVacuous is violated" in r["out"])
